@@ -92,12 +92,14 @@ pub fn synth_tzif(k: u32, with_transition: bool) -> Vec<u8> {
 }
 
 /// A synthetic TZif v2 file with a daylight saving rule in its footer: two
-/// local time types (standard, daylight), one explicit transition to
-/// standard time at 2000-01-01T00:00Z (before it: daylight time), and the
-/// POSIX rule `rule`, which must describe the same two types and have
-/// 1 January in standard time.
+/// local time types (standard, daylight), three explicit transitions
+/// (1960-01-01 to standard, 1980-01-01 to daylight, 2000-01-01T00:00Z back to
+/// standard; before the first: daylight time), and the POSIX rule `rule`,
+/// which must describe the same two types and have 1 January in standard
+/// time. Instants before 2000 are answered from the table (three different
+/// entries), later ones from the rule.
 pub fn synth_tzif_footer(rule: &str, std_off: i32, std_ab: &str, dst_off: i32, dst_ab: &str) -> Vec<u8> {
-    let mut out = Vec::with_capacity(200);
+    let mut out = Vec::with_capacity(240);
     // v1 block: one type, no transitions.
     header(&mut out, 0, 1, std_ab.len() as u32 + 1);
     out.extend_from_slice(&std_off.to_be_bytes());
@@ -108,9 +110,11 @@ pub fn synth_tzif_footer(rule: &str, std_off: i32, std_ab: &str, dst_off: i32, d
     // v2 block: type 0 = daylight (the type before the first transition),
     // type 1 = standard.
     let charcnt = (dst_ab.len() + 1 + std_ab.len() + 1) as u32;
-    header(&mut out, 1, 2, charcnt);
-    out.extend_from_slice(&946_684_800i64.to_be_bytes());
-    out.push(1);
+    header(&mut out, 3, 2, charcnt);
+    for t in [-315_619_200i64, 315_532_800, 946_684_800] {
+        out.extend_from_slice(&t.to_be_bytes());
+    }
+    out.extend_from_slice(&[1, 0, 1]);
     out.extend_from_slice(&dst_off.to_be_bytes());
     out.push(1);
     out.push(0);
